@@ -60,8 +60,8 @@ PERTURB = {"MALLOC_PERTURB_": "85"}
 
 def plan(tier):
     if tier == "thorough":
-        return [{"variant": "plain", "workers": 12, "cases": 3500, "name": "plain", "env": PERTURB},
-                {"variant": "asan", "workers": 4, "cases": 350, "name": "asan"}]
+        return [{"variant": "plain", "workers": 12, "cases": 7000, "name": "plain", "env": PERTURB},
+                {"variant": "asan", "workers": 4, "cases": 700, "name": "asan"}]
     return [{"variant": "plain", "workers": 7, "cases": 600, "name": "plain", "env": PERTURB},
             {"variant": "asan", "workers": 1, "cases": 80, "name": "asan"}]
 
